@@ -134,11 +134,14 @@ def run_c12(tier, seed):
         rc = props_seq.run_seq_property(pid, tier, seed, extra_cases=use_cases, ncases=0, write=False)
         seq = dict(props_seq.LAST)
         # two trees from one call site mutated alternately (pairs mode)
-        pair_cases = gen.gen_seq_cases(seed + 77, 24, shadow.TYPE_NAMES, [4, 8, 16])
-        for i in range(0, len(pair_cases), 2):   # same type and order within a pair
-            pair_cases[i + 1]["type"], pair_cases[i + 1]["order"], pair_cases[i + 1]["keys"] = pair_cases[i]["type"], pair_cases[i]["order"], pair_cases[i]["keys"]
-            U = len(pair_cases[i]["keys"]) if pair_cases[i]["keys"] else 10
-            pair_cases[i + 1]["ops"] = gen.gen_ops(rng, pair_cases[i]["type"], pair_cases[i]["order"], max(U, 4), len(pair_cases[i]["ops"]), True)
+        pair_cases = []
+        for g_i, a in enumerate(gen.gen_seq_cases(seed + 77, 12 if tier == "quick" else 60, shadow.TYPE_NAMES, [4, 8, 16])):
+            # two trees from one call site mutated alternately + a third constructed after they have merged/discarded nodes
+            U = len(a["keys"]) if a["keys"] else 40
+            a["id"] = "p%da" % g_i
+            b = dict(a, id="p%db" % g_i, ops=gen.gen_ops(rng, a["type"], a["order"], max(U, 4), len(a["ops"]), True))
+            late = dict(a, id="p%dc" % g_i, ops=["C 0.0 -1 0", "S 0.0"] + gen.gen_ops(rng, a["type"], a["order"], max(U, 4), 30, True) + ["C 0.0 -1 0"])
+            pair_cases += [a, b, late]
         gp, mp = seqcheck.run_cases(vh, pair_cases, tmp, tag="pairs", mode="pairs")
         pair_mm = []
         for c in pair_cases:
@@ -161,13 +164,13 @@ def run_c12(tier, seed):
                    orders_validated=len(orders), exhaustive=True,
                    exhaustive_scope="order validation: every int in [-70000,70000], 2^n+d for n<=62,|d|<=16, -2^n+-2, MinInt64, MaxInt64; six constructors each (construction skipped above 2^20, checkOrder consulted)",
                    validation_mismatches=len(mism), validation_monitor_failures=len(monv),
-                   construction_cases=len(use_cases), independent_tree_pairs=len(pair_cases) // 2, pair_mismatches=len(pair_mm),
+                   construction_cases=len(use_cases), independent_tree_groups=len(pair_cases) // 3, pair_mismatches=len(pair_mm),
                    evaluations=len(orders) + cov.get("evaluations", 0),
                    explanation="independence of two trees is a property of Go aliasing that an immutable model cannot express: tied by correspondence only (pairs mode)")
         lvl = "proof" if names and len(done) == len(names) else "other"
         common.write_evidence(pid, tier, seed, lvl, cov, time.time() - t0, viol)
-        common.log("C12 %s: %d orders validated (mismatch %d, monitor %d), %d construction cases, %d pairs (mismatch %d), theorems %d/%d, %.1fs"
-                   % (tier, len(orders), len(mism), len(monv), len(use_cases), len(pair_cases) // 2, len(pair_mm), len(done), len(names), time.time() - t0))
+        common.log("C12 %s: %d orders validated (mismatch %d, monitor %d), %d construction cases, %d tree groups (mismatch %d), theorems %d/%d, %.1fs"
+                   % (tier, len(orders), len(mism), len(monv), len(use_cases), len(pair_cases) // 3, len(pair_mm), len(done), len(names), time.time() - t0))
         return 1 if viol else 0
     finally:
         if tmp:
